@@ -1,7 +1,7 @@
 CONFIG = {
     "id": "C17",
     "coq_targets": ["Gen/FormulasInfo.v", "Gen/FormulasAttr.v", "Gen/FormulasHeal.v", "Proofs/FormulasInfoProofs.v", "Proofs/FormulasAttrCoreProofs.v", "Proofs/FormulasHealProofs.v",
-                    "Props/C17.v", "Model/HealCheck.v", "Model/HealTerms.v", "Model/SimCheck.v", "Model/DispatchCheck.v", "Proofs/DispatchProofs.v"],
+                    "Props/C17.v", "Model/HealCheck.v", "Model/HealTerms.v", "Model/SimCheck.v", "Model/DispatchCheck.v", "Proofs/DispatchProofs.v", "Model/EventsCheck.v"],
     "prop_files": ["Props/C17.v"],
     "gen": ["FormulasInfo", "FormulasAttr", "FormulasHeal"],
     "components": [{
@@ -30,6 +30,14 @@ CONFIG = {
         "case_type": "case",
         "ops_path": [3],            # input = (catalog, valid units, attaches, events)
         "n_quick": 400, "n_thorough": 20000, "shard": 100,
+    }, {
+        # the event handlers the heal listeners are delivered through (HealStart is the one MUTABLE event handler:
+        # handler/mutable.go; priority order incl. extreme priorities, subscription and nested emission from inside a
+        # running emission): Model/Events.v, shared with C18 (tools/props.d/C18.py describes the component)
+        "name": "events", "modules": ["Model.Events", "Model.EventsCheck"],
+        "check": "check_case", "monitor": "monitor_case", "model_out": "model_trace",
+        "case_type": "case", "ops_path": [1],
+        "n_quick": 900, "n_thorough": 10000, "shard": 300,
     }],
     "rule": "2-4 units (id pool 1..4 plus one unregistered id) with generated HP/ATK/DEF base/percent/flat/convert, "
             "outgoing/incoming heal bonuses and HP ratio (full, partial, zero, above 1), a set of units whose limbo wait is "
